@@ -8,7 +8,8 @@ SAME_CASES_ALL_FEATURES = True
 RULE = ("one seed-determined corpus of encode cases (values of every serialisable type / response using only the members that exist without any "
         "feature) and decode cases (requests and nested dictionaries using only feature-independent members), run under every build "
         "(quick: 6 of the 8 wire-affecting combinations plus std, std+arbitrary and everything+std; thorough: all 8 plus four std / arbitrary builds) and compared transcript-for-transcript across configurations and with the "
-        "model. Non-trivial = distinct case with a non-error answer")
+        "model; plus a corpus over the members of the all-features declarations (feature-added members set, LargeBlobs fragments of 0..3009 bytes) "
+        "compared between builds that differ only in std / arbitrary, where every answer must be identical. Non-trivial = distinct case with a non-error answer")
 ASSUMPTIONS = ["std and arbitrary do not appear in any cfg on a declaration (kernel-checked on the regenerated declarations); they are built alone and on top of all wire features"]
 TECHNIQUE = "Coq proof: (1) kernel obligation that for all 32x32 pairs of feature sets f <= f' the regenerated declarations under f' extend those under f; (2) theorems, by induction over the codec, that under this extension relation every value well-typed in the smaller configuration has the identical encoding in the larger one, and that its encoding decodes in the larger configuration to the same value with the added members absent; cross-build differential run"
 LEVEL_TEXT = ("Kernel-checked on every run: for all pairs of feature sets the declarations regenerated from /repo under the larger set extend those under the smaller one (same keys, wire types, "
@@ -78,7 +79,36 @@ def cases(tier, rng, schema, feats):
         if f[1] == "dec2" or f[1] == "decty":
             out.append(f"C16.flt.{n}\t" + "\t".join(f[1:]))
             n += 1
+    # std and arbitrary must change NOTHING, not only the members common to all configurations: a corpus over the members of the
+    # all-features declarations too (feature-added members set, containers whose capacity is a feature-dependent constant filled and
+    # over-filled), compared only between builds with the same wire features (none vs std vs std+arbitrary; all vs all+std)
+    full = core.load_schema(core.WIRE_FEATURES)
+    gf = gen.Gen(full, rng.fork("nw"), tier)
+    kk = 3 if tier == "quick" else 20
+    for variant, t in RESPONSES.items():
+        for _ in range(kk):
+            out.append(f"C16.nw.{n}\tenc2\t{variant}\t7609\t-\t{gen.show(gf.named_val(t))}")
+            n += 1
+    for cmd, (variant, t) in REQUESTS.items():
+        for _ in range(kk):
+            out.append(f"C16.nw.{n}\tdec2\t{bytes([cmd]).hex()}{cbor.enc(gf.named_wire(t)).hex()}")
+            n += 1
+    for t, d in full.items():
+        if d["kind"] == "struct" and d["de"]:
+            for _ in range(kk):
+                out.append(f"C16.nw.{n}\tdecty\t{t}\t{cbor.enc(gf.named_wire(t)).hex()}")
+                n += 1
+    for L in (0, 1, 2, 16, 3007, 3008, 3009):
+        frag = rng.bytes(L)
+        out.append(f"C16.nw.{n}\tenc2\tLargeBlobs\t7609\t-\t{{config=S(b{frag.hex()})}}")
+        n += 1
+        out.append(f"C16.nw.{n}\tdecty\tctap2::large_blobs::Response\t{cbor.enc(cbor.M([(1, frag)])).hex()}")
+        n += 1
     return out
+
+
+def wire_part(key):
+    return "+".join(x for x in key.split("+") if x not in ("std", "arbitrary", "none")) or "none"
 
 
 def strip_added(ans):
@@ -106,6 +136,8 @@ def cross_features(all_results):
         return bad
     ref = keys[0]
     for cid, (line, m, i) in all_results[ref].items():
+        if cid.startswith("C16.nw."):
+            continue
         for k in keys[1:]:
             other = all_results[k].get(cid)
             if other is None:
@@ -114,6 +146,17 @@ def cross_features(all_results):
             if a != b:
                 bad.append({"features": f"{ref} vs {k}", "case": line, "model": i, "implementation": other[2],
                             "why": f"the same case gives different answers under features [{ref}] and [{k}]"})
+    for k in keys:
+        w = wire_part(k)
+        if w == k or w not in all_results:
+            continue
+        for cid, (line, m, i) in all_results[w].items():
+            if not cid.startswith("C16.nw."):
+                continue
+            other = all_results[k].get(cid)
+            if other is not None and core.norm(i) != core.norm(other[2]):
+                bad.append({"features": f"{w} vs {k}", "case": line, "model": i, "implementation": other[2],
+                            "why": f"std / arbitrary change the answer: the same case differs under features [{w}] and [{k}]"})
     return bad
 
 
